@@ -158,6 +158,26 @@ func concatAliasSource(r *rand.Rand) string {
 	return b.String()
 }
 
+// sliceSharingSource: a slice is a fresh array (stores of whole elements stay on their side) whose
+// composite elements are the source's own (stores through them show on both sides), for every
+// bound spelling, for arrays of arrays, of maps and of any.
+func sliceSharingSource(r *rand.Rand) string {
+	var b strings.Builder
+	v := func() int { return 1 + r.Intn(90) }
+	bounds := []string{"[:]", "[:2]", "[1:]", "[0:2]", "[-2:]", "[:-1]", "[1:3]", "[-3:-1]"}
+	r.Shuffle(len(bounds), func(i, j int) { bounds[i], bounds[j] = bounds[j], bounds[i] })
+	for k, bd := range bounds[:4+r.Intn(5)] {
+		fmt.Fprintf(&b, "rows%d := [[%d %d] [%d] [%d %d %d]]\ntop%d := rows%d%s\ntop%d[0][0] = %d\nprint rows%d top%d\ntop%d[0] = [%d]\nprint rows%d top%d\nrows%d[1] = rows%d[1] + [%d]\nrows%d[2][0] = %d\nprint rows%d top%d\n",
+			k, v(), v(), v(), v(), v(), v(), k, k, bd, k, 100+v(), k, k, k, 200+v(), k, k, k, k, v(), k, 300+v(), k, k)
+		fmt.Fprintf(&b, "ppl%d := [{name:\"a\" n:%d} {name:\"b\" n:%d} {name:\"c\" n:%d}]\nrest%d := ppl%d%s\nrest%d[0].name = \"z%d\"\nrest%d[-1].extra = %d\nprint ppl%d rest%d\n",
+			k, v(), v(), v(), k, k, bd, k, v(), k, v(), k, k)
+		fmt.Fprintf(&b, "box%d:[]any\nbox%d = [[%d] {k:%d} %d]\ncut%d := box%d%s\nfor e := range cut%d\n    if (typeof e) == \"[]num\"\n        arr := e.([]num)\n        arr[0] = %d\n    else if (typeof e) == \"{}num\"\n        mm := e.({}num)\n        mm.k = %d\n    end\nend\nprint box%d cut%d\n",
+			k, k, v(), v(), v(), k, k, bd, k, 400+v(), 500+v(), k, k)
+	}
+	b.WriteString("deep := [[[1] [2]] [[3]]]\nd1 := deep[:1]\nd2 := d1[0][1:]\nd2[0][0] = 9\nprint deep d1 d2\n")
+	return b.String()
+}
+
 // dynamicScopeSource: small functions (no parameters, a single return) that read globals, called
 // from places where a local, a parameter or a loop variable of the same name is in scope.
 func dynamicScopeSource(r *rand.Rand) string {
